@@ -784,6 +784,9 @@ func (g *Gen) discharge(fcs []*FnCtx, filter func(*Oblig) bool) {
 						if qto > 6 {
 							qto = 6 // a vacuity check is not worth more; "cover-undecided" is reported as such
 						}
+						if to/3 > qto {
+							qto = to / 3 // thorough tier: large functions (writeDicts) need ~25 s for their ground part
+						}
 						r2 := runPortfolio(o.Name+"/qf", strings.Join(qf, "\n"), qto, g.seed)
 						switch r2.Verdict {
 						case "sat":
